@@ -145,9 +145,15 @@ Section Closed.
   Lemma logarg_pos t : 0 < w * (t + beta) + qq t.
   Proof.
     pose proof (qq_pos t) as Q. pose proof (qq_sq t) as S. pose proof w_pos as W.
-    destruct (Rle_dec 0 (t + beta)) as [P|P]; [nra|]. apply Rnot_le_lt in P.
-    assert (w * - (t + beta) < qq t); [|lra].
-    apply Rsqr_incrst_0; try nra. unfold Rsqr. nra.
+    destruct (Rle_dec 0 (t + beta)) as [P|P].
+    { assert (0 <= w * (t + beta)) by (apply Rmult_le_pos; lra). lra. }
+    apply Rnot_le_lt in P.
+    assert (L : w * - (t + beta) < qq t); [|lra].
+    assert (P1 : 0 <= w * - (t + beta)) by (apply Rmult_le_pos; lra).
+    apply Rsqr_incrst_0; [|exact P1|lra]. unfold Rsqr.
+    replace (w * - (t + beta) * (w * - (t + beta))) with (w * w * ((t + beta) * (t + beta))) by ring.
+    rewrite S. assert (0 < w * w) by (apply Rmult_lt_0_compat; lra).
+    rewrite Rmult_plus_distr_l. assert (0 < w * w * gamma) by (apply Rmult_lt_0_compat; lra). lra.
   Qed.
   Lemma qq_deriv t : is_derive qq t (w * w * (t + beta) / qq t).
   Proof.
@@ -164,9 +170,94 @@ Section Closed.
     pose proof (qq_deriv t) as D. pose proof (logarg_pos t) as LP.
     pose proof (qq_pos t) as Q. pose proof (qq_sq t) as S. pose proof w_pos as W.
     unfold FF. auto_derive.
-    - split; [eexists; exact D|]. split; [exact LP|]. split; [eexists; exact D|exact I].
+    - repeat split; try (eexists; exact D); try exact LP.
     - replace (Derive (fun x : R => qq x) t) with (w * w * (t + beta) / qq t)
         by (symmetry; apply is_derive_unique; exact D).
-      set (u := t + beta) in *. set (Q' := qq t) in *. Show.
-  Abort.
+      set (u := t + beta) in *. set (Q' := qq t) in *. clearbody u Q'.
+      replace ((w * 1 + 1 * (w * w * u / Q')) * / (w * u + Q')) with (w / Q') by (field; lra).
+      replace (1 * Q' + u * (1 * (w * w * u / Q')) + gamma * w * (w / Q'))
+        with ((Q' * Q' + w * w * (u * u + gamma)) / Q') by (field; lra).
+      rewrite <- S. field. lra.
+  Qed.
+  Lemma qq_cont t : continuous qq t.
+  Proof. apply (@ex_derive_continuous R_AbsRing R_NormedModule qq t). eexists; apply qq_deriv. Qed.
+
+  (* the closed form of the code, in terms of c2 c1 c0 *)
+  Definition closed_R (t0 t1 : R) : R :=
+    ((t1 + beta) * qq t1 - (t0 + beta) * qq t0
+     + gamma * w * ln ((w * (t1 + beta) + qq t1) / (w * (t0 + beta) + qq t0))) / 2.
+
+  Theorem closed_form_RInt t0 t1 : @eq R (RInt qq t0 t1) (closed_R t0 t1).
+  Proof.
+    rewrite (RInt_of_antideriv FF qq t0 t1 FF_deriv qq_cont).
+    unfold closed_R, FF. rewrite ln_div by apply logarg_pos. field.
+  Qed.
 End Closed.
+
+(* the model's closed form is the arc length when c2 > 0 and gamma > 0 *)
+Theorem quad_closed_arclen (a b : Cplx R) t0 t1 :
+  0 < quad_c2 NumR a -> 0 < quad_gamma NumR a b ->
+  quad_closed NumR NumTR a b t0 t1 = arclen (qdx a b) (qdy a b) t0 t1.
+Proof.
+  intros C2 G.
+  transitivity (closed_R (quad_c2 NumR a) (quad_c1 NumR a b) (quad_c0 NumR b) t0 t1); [reflexivity|].
+  rewrite <- (closed_form_RInt _ _ _ C2 G). unfold arclen.
+  apply RInt_ext. intros t _. unfold speed, qq, qdx, qdy.
+  destruct a as [ax ay], b as [bx by_]. f_equal. cbn. ring.
+Qed.
+
+(* gamma > 0  <=>  a, b linearly independent (control points not collinear) *)
+Lemma quad_gamma_pos (a b : Cplx R) :
+  fst a * snd b - snd a * fst b <> 0 -> 0 < quad_c2 NumR a /\ 0 < quad_gamma NumR a b.
+Proof.
+  destruct a as [ax ay], b as [bx by_]. cbn [fst snd]. intros H.
+  assert (A : 0 < ax * ax + ay * ay).
+  { destruct (Req_dec ax 0) as [->|]; destruct (Req_dec ay 0) as [->|]; try nra. }
+  split.
+  - unfold quad_c2, sq; cbn. lra.
+  - unfold quad_gamma, quad_beta, quad_c2, quad_c1, quad_c0, sq; cbn.
+    replace ((bx * bx + by_ * by_) / ((1 + 1 + (1 + 1)) * (ax * ax + ay * ay)) -
+             (1 + 1 + (1 + 1)) * (ax * bx + ay * by_) / ((1 + 1) * ((1 + 1 + (1 + 1)) * (ax * ax + ay * ay))) *
+             ((1 + 1 + (1 + 1)) * (ax * bx + ay * by_) / ((1 + 1) * ((1 + 1 + (1 + 1)) * (ax * ax + ay * ay)))))
+      with ((ax * by_ - ay * bx) * (ax * by_ - ay * bx) / (4 * (ax * ax + ay * ay) * (ax * ax + ay * ay)))
+      by (field; lra).
+    apply Rdiv_lt_0_compat; [|nra].
+    assert (0 <= (ax * by_ - ay * bx) * (ax * by_ - ay * bx)) by nra.
+    destruct H0; [assumption|]. exfalso. apply H. nra.
+Qed.
+
+(* the `abs(a) < 1e-12` branch returns |b| (t1 - t0): exact when a = 0, and
+   within |a| (t1^2 - t0^2) < 1e-12 of the arc length otherwise *)
+Theorem quad_small_a_bound (a b : Cplx R) t0 t1 : 0 <= t0 <= t1 ->
+  Rabs (cabs NumTR b * (t1 - t0) - arclen (qdx a b) (qdy a b) t0 t1)
+  <= cabs NumTR a * (t1 * t1 - t0 * t0).
+Proof.
+  intros H. rewrite !cabs_R. destruct a as [ax ay], b as [bx by_]. cbn [fst snd].
+  set (A := hyp ax ay). set (B := hyp bx by_).
+  pose proof (qd_cont (ax, ay) (bx, by_)) as QC.
+  assert (Ex : ex_RInt (speed (qdx (ax, ay) (bx, by_)) (qdy (ax, ay) (bx, by_))) t0 t1)
+    by (apply speed_ex_RInt; intros; apply QC).
+  assert (Pw : forall t, 0 <= t ->
+             Rabs (speed (qdx (ax, ay) (bx, by_)) (qdy (ax, ay) (bx, by_)) t - B) <= 2 * A * t).
+  { intros t Ht. unfold speed, qdx, qdy, B. cbn [fst snd].
+    change (Rabs (hyp (2 * t * ax + bx) (2 * t * ay + by_) - hyp bx by_) <= 2 * A * t).
+    eapply Rle_trans; [apply hyp_abs_diff|].
+    replace (2 * t * ax + bx - bx) with ((2 * t) * ax) by ring.
+    replace (2 * t * ay + by_ - by_) with ((2 * t) * ay) by ring.
+    rewrite hyp_scal by lra. unfold A. lra. }
+  assert (U : arclen (qdx (ax, ay) (bx, by_)) (qdy (ax, ay) (bx, by_)) t0 t1
+              <= B * (t1 - t0) + A * (t1 * t1 - t0 * t0)).
+  { replace (B * (t1 - t0) + A * (t1 * t1 - t0 * t0))
+      with (B * (t1 - t0) + (2 * A) * (t1 * t1 - t0 * t0) / 2) by field.
+    rewrite <- (RInt_affine B (2 * A) t0 t1). apply RInt_le; try lra; auto.
+    - apply (ex_RInt_continuous (fun t => B + 2 * A * t)). intros; poly_cont.
+    - intros t Ht. specialize (Pw t ltac:(lra)). apply Rabs_le_between in Pw. lra. }
+  assert (Lw : B * (t1 - t0) - A * (t1 * t1 - t0 * t0)
+               <= arclen (qdx (ax, ay) (bx, by_)) (qdy (ax, ay) (bx, by_)) t0 t1).
+  { replace (B * (t1 - t0) - A * (t1 * t1 - t0 * t0))
+      with (B * (t1 - t0) + (- 2 * A) * (t1 * t1 - t0 * t0) / 2) by field.
+    rewrite <- (RInt_affine B (- 2 * A) t0 t1). apply RInt_le; try lra; auto.
+    - apply (ex_RInt_continuous (fun t => B + - 2 * A * t)). intros; poly_cont.
+    - intros t Ht. specialize (Pw t ltac:(lra)). apply Rabs_le_between in Pw. lra. }
+  apply Rabs_le. lra.
+Qed.
